@@ -106,10 +106,19 @@ def _is_literal_tree(e):
 
 
 def subst(e, env):
+    """forward substitution of locals; a dotted key `obj.f` (object mode of the
+    path evaluator) stands for the attribute `obj.f` of the object under
+    construction and replaces loads of exactly that attribute"""
     class T(ast.NodeTransformer):
         def visit_Name(self, n):
             if isinstance(n.ctx, ast.Load) and n.id in env:
                 return copy.deepcopy(env[n.id])
+            return n
+
+        def visit_Attribute(self, n):
+            n = self.generic_visit(n)
+            if isinstance(n.ctx, ast.Load) and isinstance(n.value, ast.Name) and (n.value.id + "." + n.attr) in env:
+                return copy.deepcopy(env[n.value.id + "." + n.attr])
             return n
 
         def visit_Lambda(self, n):
@@ -172,6 +181,7 @@ def fold(e, hook=None, consts=None):
       {..}.get(c, d)      == vi / d
       (x0, x1, ..)[i]     == xi
       [..] + [..]         == [.., ..]
+      c is None           == (c is the constant None)   for a constant c
     """
 
     def const_container(n):
@@ -230,6 +240,11 @@ def fold(e, hook=None, consts=None):
                         if r[0]:
                             return self.visit(copy.deepcopy(r[1]))
                         return n.args[1] if len(n.args) == 2 else ast.Constant(value=None)
+            if isinstance(n, ast.Compare) and len(n.ops) == 1 and isinstance(n.ops[0], (ast.Is, ast.IsNot)) and isinstance(n.left, ast.Constant) and isinstance(n.comparators[0], ast.Constant) \
+                    and (n.left.value is None or n.comparators[0].value is None):
+                # identity with the singleton None is decided by the values
+                same = n.left.value is None and n.comparators[0].value is None
+                return ast.Constant(value=same if isinstance(n.ops[0], ast.Is) else not same)
             if isinstance(n, (ast.BinOp, ast.UnaryOp, ast.Compare, ast.BoolOp)):
                 try:
                     v = norm.consteval(n)
@@ -254,6 +269,7 @@ class EvalPath:
         self.value = value  # substituted expression (None for a bare return / falling off the end)
         self.node = node  # the Return / Raise statement (or the function for fall-off)
         self.stores = stores  # [(target expr, value expr)] attribute / subscript stores on the path
+        self.env = None  # final bindings (locals, and `obj.f` fields in object mode)
 
 
 MUTATORS = {"append": 1, "extend": 1}
@@ -295,13 +311,127 @@ def decide(t, conds):
     return None
 
 
-def enumerate_paths(fnode, hook=None, what="function", max_paths=96, consts=None):
+def boolops_as_ifexp(e):
+    """`a or b` -> `a if a else b`, `a and b` -> `b if a else a` wherever the
+    operands that are evaluated twice are pure and cheap (names, constants,
+    attribute chains): exact for every value, and it lets the path evaluator
+    fork on the *value* of a short-circuit expression instead of folding it to
+    its truth."""
+    def simple(x):
+        return isinstance(x, (ast.Name, ast.Constant)) or chain(x) is not None
+
+    class T(ast.NodeTransformer):
+        def visit_Lambda(self, n):
+            return n
+
+        def visit_ListComp(self, n):
+            return n
+
+        visit_SetComp = visit_DictComp = visit_GeneratorExp = visit_ListComp
+
+        def visit_BoolOp(self, n):
+            n = self.generic_visit(n)
+            if not all(simple(v) for v in n.values[:-1]):
+                return n
+            out = n.values[-1]
+            for v in reversed(n.values[:-1]):
+                if isinstance(n.op, ast.Or):
+                    out = ast.IfExp(test=copy.deepcopy(v), body=v, orelse=out)
+                else:
+                    out = ast.IfExp(test=copy.deepcopy(v), body=out, orelse=v)
+            return out
+
+    return T().visit(copy.deepcopy(e))
+
+
+def enumerate_paths(fnode, hook=None, what="function", max_paths=96, consts=None, env0=None, obj=None, effects=None):
     """All paths of a function without `while`/`try`/`with` as (path
     conditions, outcome) with locals forward-substituted.  Conditional
     expressions fork the path like `if` statements do; `for` over a constant
     sequence is unrolled.  Anything outside the vocabulary is an analysis
-    error (exit 2), never a verdict."""
+    error (exit 2), never a verdict.
+
+    `env0`: initial bindings (parameters of one call site).  Object mode
+    (`obj` = name of the receiver, e.g. "self", for constructors): a store
+    `obj.f = v` -- through any local alias of obj -- binds the key "obj.f",
+    later loads of obj.f read it back, `a or b` / `a and b` in an assigned value
+    fork on the value, `with` blocks run their body, and every executed call that
+    may reach obj (a method of obj, obj passed as an argument) is given to
+    `effects(call)` which returns the names of the fields it may store (those are
+    unknown afterwards; None = any field, then the key "obj.*" is bound too) or
+    raises AnalysisError.  Each EvalPath carries the final
+    bindings in `.env`."""
     results = []
+    fresh = [0]
+
+    def unknown():
+        fresh[0] += 1
+        return ast.Name(id="UNKNOWN__%d" % fresh[0], ctx=ast.Load())
+
+    def emit(conds, kind, value, node, stores, env):
+        p = EvalPath(conds, kind, value, node, stores)
+        p.env = env
+        results.append(p)
+
+    def reaches_obj(call):
+        """the (substituted) call is a method call on obj or hands obj itself
+        (or its attribute dictionary) to the callee"""
+        f = call.func
+        if isinstance(f, ast.Attribute) and isinstance(f.value, ast.Name) and f.value.id == obj:
+            return True
+        inner = set()
+        for a in list(call.args) + [k.value for k in call.keywords]:
+            for x in ast.walk(a):
+                if isinstance(x, ast.Attribute) and isinstance(x.value, ast.Name) and x.value.id == obj and x.attr != "__dict__":
+                    inner.add(id(x.value))
+            for x in ast.walk(a):
+                if isinstance(x, ast.Name) and x.id == obj and id(x) not in inner:
+                    return True
+        return False
+
+    def own_exprs(st):
+        if isinstance(st, ast.If):
+            return [st.test]
+        if isinstance(st, ast.For):
+            return [st.iter]
+        if isinstance(st, ast.With):
+            return [it.context_expr for it in st.items]
+        if isinstance(st, (ast.Expr, ast.Assign, ast.AnnAssign, ast.AugAssign, ast.Return, ast.Raise)):
+            return [st]
+        return []
+
+    def call_effects(st, env):
+        """object mode: bindings after the calls evaluated by statement st itself"""
+        for root in own_exprs(st):
+            todo = [root]
+            while todo:
+                x = todo.pop()
+                if isinstance(x, ast.Lambda):
+                    continue
+                todo.extend(ast.iter_child_nodes(x))
+                if not isinstance(x, ast.Call):
+                    continue
+                f = x.func
+                if isinstance(f, ast.Attribute) and isinstance(f.value, ast.Name) and isinstance(env.get(f.value.id), (ast.Dict, ast.List, ast.Set)) \
+                        and f.attr not in _READONLY_METHODS and not (isinstance(st, ast.Expr) and st.value is x and f.attr in MUTATORS):
+                    raise AnalysisError("%s: a container the evaluator tracks by value is mutated: %s" % (what, txt(x)))
+                c2 = subst(x, env)
+                if is_log_call(x):
+                    continue  # logging is transparent
+                if reaches_obj(c2):
+                    if effects is None:
+                        raise AnalysisError("%s: cannot tell what %s does to %s" % (what, txt(x), obj))
+                    killed = effects(c2)
+                    env = dict(env)
+                    if killed is None:
+                        # anything may have been stored: every field, also those not bound yet
+                        for k in [k for k in env if k.startswith(obj + ".")]:
+                            env[k] = unknown()
+                        env[obj + ".*"] = unknown()
+                    else:
+                        for fld in killed:
+                            env[obj + "." + fld] = unknown()
+        return env
 
     def guard():
         if len(results) > max_paths:
@@ -351,6 +481,11 @@ def enumerate_paths(fnode, hook=None, what="function", max_paths=96, consts=None
         if isinstance(target, ast.Name):
             env[target.id] = value
             return True
+        if obj is not None and isinstance(target, ast.Attribute):
+            t2 = subst(target, env)
+            if isinstance(t2.value, ast.Name) and t2.value.id == obj:
+                env[obj + "." + t2.attr] = value
+                return True
         if isinstance(target, (ast.Tuple, ast.List)):
             if any(isinstance(t, ast.Starred) for t in target.elts):
                 return False
@@ -374,9 +509,10 @@ def enumerate_paths(fnode, hook=None, what="function", max_paths=96, consts=None
             return list(e.keys)
         if isinstance(e, ast.Call) and isinstance(e.func, ast.Attribute) and not e.args and not e.keywords and e.func.attr in ("items", "keys", "values"):
             d = e.func.value
+            inline = isinstance(d, ast.Dict)  # a display evaluated right here: its elements are what is iterated
             if isinstance(d, ast.Name) and consts is not None:
                 d = consts(d.id)
-            if isinstance(d, ast.Dict) and all(k is not None for k in d.keys) and _is_literal_tree(d):
+            if isinstance(d, ast.Dict) and all(k is not None for k in d.keys) and (inline or _is_literal_tree(d)):
                 if e.func.attr == "keys":
                     return [copy.deepcopy(k) for k in d.keys]
                 if e.func.attr == "values":
@@ -408,6 +544,19 @@ def enumerate_paths(fnode, hook=None, what="function", max_paths=96, consts=None
     def step(st, env, conds, stores):
         if isinstance(st, (ast.Pass, ast.Assert, ast.Import, ast.ImportFrom, ast.Global, ast.Nonlocal)):
             return [(env, conds, stores, None)]
+        if obj is not None:
+            env = call_effects(st, env)
+            if isinstance(st, (ast.Assign, ast.AnnAssign, ast.Return)) and st.value is not None:
+                st = copy.copy(st)
+                st.value = boolops_as_ifexp(st.value)
+            if isinstance(st, ast.With):
+                if any(isinstance(x, (ast.Raise, ast.Return, ast.Break, ast.Continue)) for b in st.body for x in ast.walk(b)):
+                    raise AnalysisError("%s: a jump inside a `with` block (the context manager may intercept it)" % what)
+                env2 = dict(env)
+                for it in st.items:
+                    if it.optional_vars is not None and not assign(env2, it.optional_vars, unknown()):
+                        raise AnalysisError("%s: cannot bind %s" % (what, txt(it.optional_vars)))
+                return block(st.body, [(env2, conds, stores, None)])
         if isinstance(st, ast.Break):
             return [(env, conds, stores, "break")]
         if isinstance(st, ast.Continue):
@@ -433,6 +582,8 @@ def enumerate_paths(fnode, hook=None, what="function", max_paths=96, consts=None
                     return out
                 if is_log_call(v):
                     return [(env, conds, stores, None)]
+                if obj is not None and not isinstance(cur, (ast.List, ast.Dict, ast.Set)):
+                    return [(env, conds, stores, None)]  # a call on a value that is not tracked as a container
                 raise AnalysisError("%s: method call on a tracked local is outside the evaluator's vocabulary: %s" % (what, txt(st)))
             return [(env, conds, stores, None)]
         if isinstance(st, ast.Assign):
@@ -470,7 +621,10 @@ def enumerate_paths(fnode, hook=None, what="function", max_paths=96, consts=None
                     if hasattr(n, "ctx"):
                         n.ctx = ast.Load()
                 for val, c2 in evs(ast.BinOp(left=tgt, op=st.op, right=st.value), env, conds):
-                    out.append((dict(env), c2, stores + [(subst(st.target, env), val)], None))
+                    env2 = dict(env)
+                    if not (obj is not None and assign(env2, st.target, val)):
+                        env2 = dict(env)
+                    out.append((env2, c2, stores + [(subst(st.target, env), val)], None))
             return out
         if isinstance(st, ast.If):
             out = []
@@ -509,21 +663,21 @@ def enumerate_paths(fnode, hook=None, what="function", max_paths=96, consts=None
             return out
         if isinstance(st, ast.Return):
             if st.value is None:
-                results.append(EvalPath(conds, "return", None, st, stores))
+                emit(conds, "return", None, st, stores, env)
             else:
                 for v, c2 in evs(st.value, env, conds):
-                    results.append(EvalPath(c2, "return", v, st, stores))
+                    emit(c2, "return", v, st, stores, env)
             guard()
             return []
         if isinstance(st, ast.Raise):
-            results.append(EvalPath(conds, "raise", subst(st.exc, env) if st.exc is not None else None, st, stores))
+            emit(conds, "raise", subst(st.exc, env) if st.exc is not None else None, st, stores, env)
             return []
         raise AnalysisError("%s: statement kind %s is outside the path evaluator's vocabulary" % (what, type(st).__name__))
 
-    for env, conds, stores, ctl in block(fnode.body, [({}, [], [], None)]):
+    for env, conds, stores, ctl in block(fnode.body, [(dict(env0 or {}), [], [], None)]):
         if ctl is not None:
             raise AnalysisError("%s: break/continue outside a loop" % what)
-        results.append(EvalPath(conds, "return", None, fnode, stores))
+        emit(conds, "return", None, fnode, stores, env)
     return results
 
 
@@ -2039,3 +2193,334 @@ def binder_nodes(cfg, field, calls_rebind):
                 elif isinstance(x, (ast.Call, ast.Await, ast.Yield, ast.YieldFrom)) and calls_rebind:
                     add(field, node.id)
     return out
+
+
+# ---------------------------------------------------------------------------
+# constructors as functions from call-site arguments to fields: one call site
+# is bound to the parameters of __init__ (defaults filled in, the arguments
+# replaced by opaque symbols so that nothing of the caller's scope is captured),
+# then enumerate_paths(obj=...) says what every field holds afterwards.
+
+
+def bind_call(fn, call, what="call"):
+    """(env0, symbols, by_keyword) for evaluating the body of `fn` (a
+    FunctionDef whose first positional parameter is the receiver) at the call
+    site `call`: every parameter is bound to an opaque symbol ARG__<param> (the
+    argument given at the site; symbols[sym] = that expression), to its default
+    when the default is a constant, or to a symbol DEFAULT__<param> otherwise;
+    `*args` / `**kwargs` parameters become a tuple / dict display of the surplus
+    arguments.  by_keyword[k] = symbol of the keyword (or position) k of the
+    site.  Refuses (AnalysisError) what Python itself would reject and what is
+    not statically known (`*x` / `**x` at the site)."""
+    a = fn.args
+    pos = [x.arg for x in a.posonlyargs + a.args]
+    if not pos:
+        raise AnalysisError("%s: the callee has no receiver parameter" % what)
+    pos = pos[1:]
+    posonly = {x.arg for x in a.posonlyargs}
+    defaults = {}
+    allpos = a.posonlyargs + a.args
+    for p, d in zip(allpos[len(allpos) - len(a.defaults):], a.defaults):
+        defaults[p.arg] = d
+    for p, d in zip(a.kwonlyargs, a.kw_defaults):
+        if d is not None:
+            defaults[p.arg] = d
+    names = pos + [x.arg for x in a.kwonlyargs]
+    if any(isinstance(x, ast.Starred) for x in call.args) or any(k.arg is None for k in call.keywords):
+        raise AnalysisError("%s: the arguments of %s are not statically known (* / **)" % (what, txt(call)))
+    env, symbols, by_kw = {}, {}, {}
+
+    def sym(key, expr):
+        s = "ARG__%s" % key
+        symbols[s] = expr
+        by_kw[key] = s
+        return ast.Name(id=s, ctx=ast.Load())
+
+    extra_pos = []
+    for i, x in enumerate(call.args):
+        if i < len(pos):
+            env[pos[i]] = sym(pos[i], x)
+            by_kw[i] = by_kw[pos[i]]
+        elif a.vararg is not None:
+            extra_pos.append(sym("pos%d" % i, x))
+            by_kw[i] = by_kw["pos%d" % i]
+        else:
+            raise AnalysisError("%s: too many positional arguments in %s" % (what, txt(call)))
+    extra_kw = []
+    for k in call.keywords:
+        if k.arg in names and k.arg not in posonly:
+            if k.arg in env:
+                raise AnalysisError("%s: argument %s given twice in %s" % (what, k.arg, txt(call)))
+            env[k.arg] = sym(k.arg, k.value)
+        elif a.kwarg is not None:
+            extra_kw.append((k.arg, sym(k.arg, k.value)))
+        else:
+            raise AnalysisError("%s: unexpected keyword %s in %s" % (what, k.arg, txt(call)))
+    for n in names:
+        if n in env:
+            continue
+        if n not in defaults:
+            raise AnalysisError("%s: required argument %s missing in %s" % (what, n, txt(call)))
+        d = defaults[n]
+        env[n] = copy.deepcopy(d) if isinstance(d, ast.Constant) else ast.Name(id="DEFAULT__%s" % n, ctx=ast.Load())
+    if a.vararg is not None:
+        env[a.vararg.arg] = ast.Tuple(elts=extra_pos, ctx=ast.Load())
+    if a.kwarg is not None:
+        env[a.kwarg.arg] = ast.Dict(keys=[ast.Constant(value=k) for k, _ in extra_kw], values=[v for _, v in extra_kw])
+    return env, symbols, by_kw
+
+
+_LOOKS_ONLY = {"type", "isinstance", "id", "repr", "str", "hasattr", "len", "bool"}
+
+
+def receiver_stores(prog, clsqn, method, seen=None):
+    """Names of the attributes of the receiver that method `method` of class
+    clsqn may store (itself or through further methods of the receiver it
+    calls); None = cannot tell (the receiver is used as a value: aliased,
+    passed on, returned; setattr with a computed name; unknown method)."""
+    seen = set() if seen is None else seen
+    if method in seen:
+        return set()
+    seen.add(method)
+    fi = prog.lookup_method(clsqn, method)
+    if fi is None:
+        return None
+    a = fi.node.args
+    ps = [x.arg for x in a.posonlyargs + a.args]
+    if not ps:
+        return None
+    me = ps[0]
+    out = set()
+    based = set()
+    for n in ast.walk(fi.node):
+        if isinstance(n, ast.Attribute) and isinstance(n.value, ast.Name) and n.value.id == me and n.attr != "__dict__":
+            based.add(id(n.value))
+            if isinstance(n.ctx, (ast.Store, ast.Del)):
+                out.add(n.attr)
+    for n in ast.walk(fi.node):
+        if isinstance(n, ast.Call) and isinstance(n.func, ast.Name) and n.func.id in ("setattr", "delattr") and n.args and isinstance(n.args[0], ast.Name) and n.args[0].id == me \
+                and len(n.args) >= 2 and isinstance(n.args[1], ast.Constant) and isinstance(n.args[1].value, str):
+            out.add(n.args[1].value)
+            based.add(id(n.args[0]))
+    # the receiver handed to something that only looks at it: formatting, type tests
+    for n in ast.walk(fi.node):
+        if isinstance(n, ast.FormattedValue) and isinstance(n.value, ast.Name):
+            based.add(id(n.value))
+        if isinstance(n, ast.Call) and ((isinstance(n.func, ast.Name) and n.func.id in _LOOKS_ONLY) or is_log_call(n)) and not n.keywords:
+            for a_ in n.args:
+                if isinstance(a_, ast.Name):
+                    based.add(id(a_))
+    for n in ast.walk(fi.node):
+        if isinstance(n, ast.Name) and n.id == me and id(n) not in based:
+            return None
+    for n in ast.walk(fi.node):
+        if isinstance(n, ast.Call) and isinstance(n.func, ast.Attribute) and isinstance(n.func.value, ast.Name) and n.func.value.id == me:
+            sub = receiver_stores(prog, clsqn, n.func.attr, seen)
+            if sub is None:
+                return None
+            out |= sub
+    return out
+
+
+def truth3(e, facts):
+    """Three-valued truth of a path condition under what is known about the
+    symbols: facts[name] = constant value of the symbol.  None = open."""
+    def val(x):
+        if isinstance(x, ast.Constant):
+            return True, x.value
+        if isinstance(x, ast.Name) and x.id in facts:
+            return True, facts[x.id]
+        return False, None
+
+    if isinstance(e, ast.UnaryOp) and isinstance(e.op, ast.Not):
+        r = truth3(e.operand, facts)
+        return None if r is None else not r
+    if isinstance(e, ast.BoolOp):
+        rs = [truth3(v, facts) for v in e.values]
+        if isinstance(e.op, ast.And):
+            return False if any(r is False for r in rs) else (True if all(r is True for r in rs) else None)
+        return True if any(r is True for r in rs) else (False if all(r is False for r in rs) else None)
+    if isinstance(e, ast.Compare) and len(e.ops) == 1:
+        (ka, a), (kb, b) = val(e.left), val(e.comparators[0])
+        if not (ka and kb):
+            return None
+        op = e.ops[0]
+        try:
+            if isinstance(op, (ast.Is, ast.IsNot)):
+                if a is None or b is None:
+                    same = a is None and b is None
+                    return same if isinstance(op, ast.Is) else not same
+                return None
+            if isinstance(op, ast.Eq):
+                return bool(a == b)
+            if isinstance(op, ast.NotEq):
+                return bool(a != b)
+            if isinstance(op, ast.Lt):
+                return bool(a < b)
+            if isinstance(op, ast.LtE):
+                return bool(a <= b)
+            if isinstance(op, ast.Gt):
+                return bool(a > b)
+            if isinstance(op, ast.GtE):
+                return bool(a >= b)
+        except TypeError:
+            return None
+        return None
+    k, v = val(e)
+    if k:
+        return bool(v)
+    return None
+
+
+def implied_constant(conds, sym):
+    """Constants c such that the path conditions say `sym == c` (or `sym is
+    None`): [(value,)]; comparisons in either operand order and polarity."""
+    out = []
+    for t, pol in conds:
+        while isinstance(t, ast.UnaryOp) and isinstance(t.op, ast.Not):
+            t, pol = t.operand, not pol
+        if not (isinstance(t, ast.Compare) and len(t.ops) == 1):
+            continue
+        l, r = t.left, t.comparators[0]
+        if isinstance(r, ast.Name) and r.id == sym:
+            l, r = r, l
+        if not (isinstance(l, ast.Name) and l.id == sym and isinstance(r, ast.Constant)):
+            continue
+        op = t.ops[0]
+        if (isinstance(op, ast.Eq) and pol) or (isinstance(op, ast.NotEq) and not pol):
+            out.append((r.value,))
+        elif r.value is None and ((isinstance(op, ast.Is) and pol) or (isinstance(op, ast.IsNot) and not pol)):
+            out.append((None,))
+    return out
+
+
+# ---------------------------------------------------------------------------
+# named constants and capture patterns: two exact rewrites that put a function
+# into the vocabulary of the rules without touching what it does.
+#
+#  * `C.A` where C names a class of the package whose body binds A exactly once
+#    to a literal and nothing in the package stores / deletes an attribute A
+#    through that class, becomes the literal.  (A namespace class of option
+#    numbers; an IntEnum member compares and hashes like its value, a member of
+#    a plain Enum does not and is left alone.)
+#  * `case x [if g]: body` of a `match` whose subject S is a pure attribute chain
+#    becomes `case _ [if g[x:=S]]: x = S; body`: the capture is the subject, and
+#    nothing can run between the evaluation of the subject and the guard but
+#    comparisons of the earlier value patterns.
+
+
+def class_constant(prog, module, e):
+    """ast.Constant for an attribute `C.A` denoting an immutable class-level
+    literal (see above), else None"""
+    if not (isinstance(e, ast.Attribute) and isinstance(e.ctx, ast.Load) and isinstance(e.value, ast.Name)):
+        return None
+    q = prog.resolve_in_module(module, e.value.id)
+    ci = prog.classes.get(q)
+    if ci is None:
+        return None
+    cache = prog.__dict__.setdefault("_c15_class_consts", {})
+    key = (q, e.attr)
+    if key not in cache:
+        cache[key] = None
+        binds = []
+        for st in ast.walk(ci.node):
+            if isinstance(st, ast.Name) and st.id == e.attr and isinstance(st.ctx, (ast.Store, ast.Del)):
+                binds.append(st)
+        value = None
+        for st in ci.node.body:
+            if isinstance(st, ast.Assign) and len(st.targets) == 1 and isinstance(st.targets[0], ast.Name) and st.targets[0].id == e.attr:
+                value = st.value
+            elif isinstance(st, ast.AnnAssign) and isinstance(st.target, ast.Name) and st.target.id == e.attr:
+                value = st.value
+        ok = len(binds) == 1 and value is not None and not any(isinstance(x, (ast.FunctionDef, ast.AsyncFunctionDef, ast.ClassDef)) and x.name == e.attr for x in ast.walk(ci.node))
+        mro = prog.mro(q)
+        if any(b.startswith("enum.") for b in mro) and not any(b in ("enum.IntEnum", "enum.IntFlag", "int") for b in mro):
+            ok = False
+        if any(not b.startswith("aiocoap.") and not b.startswith("enum.") and b not in ("object", "int") for b in mro):
+            ok = False  # a base we cannot see may define attribute hooks
+        if ci.node.keywords and not any(b.startswith("enum.") for b in mro):
+            ok = False  # a metaclass of unknown meaning
+        cv = None
+        if ok:
+            try:
+                cv = norm.consteval(value)
+            except Exception:
+                ok = False
+        if ok and not (isinstance(cv, (int, str, bytes)) and not isinstance(cv, bool)):
+            ok = False
+        if ok:
+            short = q.rsplit(".", 1)[-1]
+            for m in prog.modules.values():
+                for n in ast.walk(m.tree):
+                    if isinstance(n, ast.Attribute) and n.attr == e.attr and isinstance(n.ctx, (ast.Store, ast.Del)):
+                        base = n.value
+                        if isinstance(base, ast.Name) and (base.id == short or prog.resolve_in_module(m, base.id) == q or base.id == "cls"):
+                            ok = False
+                    elif isinstance(n, ast.Call) and isinstance(n.func, ast.Name) and n.func.id in ("setattr", "delattr") and n.args and isinstance(n.args[0], ast.Name) \
+                            and (n.args[0].id == short or prog.resolve_in_module(m, n.args[0].id) == q):
+                        ok = False
+        if ok:
+            cache[key] = cv
+    cv = cache[key]
+    return None if cv is None else ast.copy_location(ast.Constant(value=cv), e)
+
+
+def _pure_chain(e):
+    while isinstance(e, ast.Attribute):
+        e = e.value
+    return isinstance(e, ast.Name)
+
+
+def simplified(prog, fi):
+    """(fi or a rewritten copy of it, [notes])"""
+    fn = copy.deepcopy(fi.node)
+    notes = []
+    bound_elsewhere = {}
+    for n in ast.walk(fn):
+        if isinstance(n, ast.Name) and isinstance(n.ctx, (ast.Store, ast.Del)):
+            bound_elsewhere[n.id] = bound_elsewhere.get(n.id, 0) + 1
+        elif isinstance(n, ast.arg):
+            bound_elsewhere[n.arg] = bound_elsewhere.get(n.arg, 0) + 1
+        elif isinstance(n, (ast.MatchAs, ast.MatchStar)) and n.name is not None:
+            bound_elsewhere[n.name] = bound_elsewhere.get(n.name, 0) + 1
+        elif isinstance(n, ast.MatchMapping) and n.rest is not None:
+            bound_elsewhere[n.rest] = bound_elsewhere.get(n.rest, 0) + 1
+
+    class Consts(ast.NodeTransformer):
+        def visit_Attribute(self, n):
+            c = class_constant(prog, fi.module, n)
+            if c is not None and n.value.id not in bound_elsewhere:
+                notes.append("%s is the class-level constant %r" % (txt(n), c.value))
+                return c
+            return self.generic_visit(n)
+
+    fn = Consts().visit(fn)
+
+    class Captures(ast.NodeTransformer):
+        def visit_Match(self, st):
+            st = self.generic_visit(st)
+            if not _pure_chain(st.subject):
+                return st
+            for case in st.cases:
+                p = case.pattern
+                if isinstance(p, ast.MatchAs) and p.pattern is None and p.name is not None and bound_elsewhere.get(p.name) == 1:
+                    x = p.name
+                    # the capture binds x even when the guard fails: every use must lie in this case
+                    inside = sum(1 for r in ([case.guard] if case.guard is not None else []) + case.body for n in ast.walk(r) if isinstance(n, ast.Name) and n.id == x)
+                    if inside != sum(1 for n in ast.walk(fn) if isinstance(n, ast.Name) and n.id == x):
+                        continue
+                    if case.guard is not None:
+                        case.guard = subst(case.guard, {x: st.subject})
+                    bind = ast.Assign(targets=[ast.Name(id=x, ctx=ast.Store())], value=copy.deepcopy(st.subject))
+                    ast.copy_location(bind, case.body[0])
+                    ast.fix_missing_locations(bind)
+                    case.body = [bind] + case.body
+                    case.pattern = ast.copy_location(ast.MatchAs(pattern=None, name=None), p)
+                    notes.append("capture pattern `case %s` read as the subject %s" % (x, txt(st.subject)))
+            return st
+
+    fn = Captures().visit(fn)
+    if not notes:
+        return fi, []
+    ast.fix_missing_locations(fn)
+    return FuncInfo(fi.qn, fn, fi.module, fi.cls, fi.parent), notes
